@@ -53,3 +53,13 @@ Print Assumptions prev_weekday_spec.
 Example c17_nonvacuous :
   valid_fields (mkF 2024 2 29 0 0 0) = true /\ get_weekday64 (mkF 2024 2 29 0 0 0) = OK 3.
 Proof. vm_compute. split; reflexivity. Qed.
+
+(* ---- tie to the CURRENT source: the functions below are translated from clang's AST
+   of /repo on every run (coq/Translated.v); the model computes exactly them ---- *)
+From CCTZ Require Import Translated TranslatedProofs.
+Theorem src_tie_get_weekday : forall f r, get_weekday64 f = OK r -> r = tr_get_weekday (fy f) (fm f) (fd f).
+Proof. exact tr_get_weekday_eq. Qed.
+Print Assumptions src_tie_get_weekday.
+Theorem src_tie_get_yearday : forall f r, get_yearday64 f = OK r -> r = tr_get_yearday (fy f) (fm f) (fd f).
+Proof. exact tr_get_yearday_eq. Qed.
+Print Assumptions src_tie_get_yearday.
